@@ -329,7 +329,11 @@ package ircserver
 //@   ensures keeps: forall x robust.Id :: old(x in i.sessions) ==> x in i.sessions && i.sessions[x] == old(i.sessions[x])
 //@   ensures onlyself: forall x robust.Id :: x in i.sessions && i.sessions[x] != s && i.sessions[x].deleted ==> s.Server || s.Operator
 //@   ensures rolekept: forall x robust.Id :: old(x in i.sessions) && old(i.sessions[x].Server) ==> i.sessions[x].Server
+//@   ensures revisionkept: i.Config.Revision == old(i.Config.Revision)
+//@   ensures seenkept: i.lastProcessed == old(i.lastProcessed) && (forall x robust.Id :: x in i.sessions && !old(x in i.sessions) ==> x.Id == s.Id.Id)
 //@   modifies *, !robust.Message
+//@   loopinv seenkept: i.lastProcessed == old(i.lastProcessed) && (forall x robust.Id :: x in i.sessions && !old(x in i.sessions) ==> x.Id == s.Id.Id)
+//@   loopinv revisionkept: i.Config.Revision == old(i.Config.Revision)
 //@   loopinv rolekept: forall x robust.Id :: old(x in i.sessions) && old(i.sessions[x].Server) ==> i.sessions[x].Server
 //@   loopinv onlyself: forall x robust.Id :: x in i.sessions && i.sessions[x] != s && i.sessions[x].deleted ==> s.Server || s.Operator
 //@   loopinv base: wfBase(i) && replyOK(reply)
@@ -367,6 +371,8 @@ package ircserver
 //@   ensures owner: wfOwner(i)
 //@   ensures reply: result != nil && replyOK(result)
 //@   ensures keeps: forall x robust.Id :: old(x in i.sessions) ==> x in i.sessions && i.sessions[x] == old(i.sessions[x])
+//@   ensures revisionkept: i.Config.Revision == old(i.Config.Revision)
+//@   ensures seenkept: i.lastProcessed == old(i.lastProcessed) && (forall x robust.Id :: x in i.sessions && !old(x in i.sessions) ==> x.Id == old(msg.Session.Id))
 //@   ensures onlyself: forall x robust.Id :: x in i.sessions && i.sessions[x] != i.sessions[old(msg.Session)] && i.sessions[x].deleted ==> i.sessions[old(msg.Session)].Server || i.sessions[old(msg.Session)].Operator
 //@   modifies *, !robust.Message
 
@@ -423,6 +429,8 @@ package ircserver
 //@   requires othersalive: forall x robust.Id :: x in i.sessions && i.sessions[x] != s && i.sessions[x].deleted ==> s.Server || s.Operator
 //@   ensures onlyself: forall x robust.Id :: x in i.sessions && i.sessions[x] != s && i.sessions[x].deleted ==> s.Server || s.Operator
 //@   ensures rolekept: forall x robust.Id :: old(x in i.sessions) && old(i.sessions[x].Server) ==> i.sessions[x].Server
+//@   ensures revisionkept: i.Config.Revision == old(i.Config.Revision)
+//@   ensures seenkept: i.lastProcessed == old(i.lastProcessed) && (forall x robust.Id :: x in i.sessions ==> old(x in i.sessions))
 //@   requires auth: wfAuth(i) && wfLogin(i)
 //@   ensures auth: wfAuth(i)
 //@   ensures login: wfLogin(i)
@@ -446,6 +454,9 @@ package ircserver
 
 //@ func IRCServer.cmdOper
 //@   ensures stillalive: !s.deleted
+//@   ensures nonew: forall x robust.Id :: x in i.sessions ==> old(x in i.sessions)
+//@ func IRCServer.cmdMotd
+//@   ensures nonew: forall x robust.Id :: x in i.sessions ==> old(x in i.sessions)
 
 //@ func IRCServer.cmdUser
 //@   requires api: s.Id.Reply == 0
@@ -479,6 +490,7 @@ package ircserver
 
 //@ func IRCServer.cmdMode
 //@   ensures stillalive: !s.deleted && (old(s.loggedIn) ==> s.loggedIn)
+//@   ensures nonew: forall x robust.Id :: x in i.sessions ==> old(x in i.sessions)
 //@   loop range modes
 //@     invariant forall k int :: 0 <= k && k < len(modes) ==> len(modes[k].Mode) >= 2
 //@     invariant c != nil && ChanToLower(channelname) in i.channels && c == i.channels[ChanToLower(channelname)]
@@ -487,8 +499,10 @@ package ircserver
 //@     invariant session != nil && nick in i.nicks && session == i.nicks[nick]
 //@ func IRCServer.cmdTopic
 //@   ensures stillalive: !s.deleted && (old(s.loggedIn) ==> s.loggedIn)
+//@   ensures nonew: forall x robust.Id :: x in i.sessions ==> old(x in i.sessions)
 //@ func IRCServer.cmdNames
 //@   ensures stillalive: !s.deleted && (old(s.loggedIn) ==> s.loggedIn)
+//@   ensures nonew: forall x robust.Id :: x in i.sessions ==> old(x in i.sessions)
 
 // ---------------------------------------------------------------------------
 // MODE
@@ -653,3 +667,26 @@ package ircserver
 //@   requires wfAll(i) && ch in i.channels && n in i.channels[ch].nicks
 //@   ensures live: n in i.nicks && i.nicks[n].Id in i.sessions && i.sessions[i.nicks[n].Id] == i.nicks[n] && !i.nicks[n].deleted && NickToLower(i.nicks[n].Nick) == n
 //@   ensures nonempty: exists m lcNick :: m in i.channels[ch].nicks
+
+// The lookup error is handed to the API unchanged: the API distinguishes "not yet seen" from "gone"
+// by identity.
+//@ func IRCServer.GetAuth
+//@   requires i != nil && i.sessions != nil && i.lastProcessedMu != nil && i.sessionsMu != nil && sessShape(i)
+//@   ensures found: sessionid in i.sessions ==> result0 == i.sessions[sessionid].auth && result1 == nil
+//@   ensures gone: !(sessionid in i.sessions) && i.lastProcessed.Id > sessionid.Id ==> result1 == ErrNoSuchSession
+//@   ensures notyet: !(sessionid in i.sessions) && i.lastProcessed.Id <= sessionid.Id ==> result1 == ErrSessionNotYetSeen
+//@   modifies
+
+// ---------------------------------------------------------------------------
+// C17: what a lookup answer means relative to what this node has applied. `applied` is the id of
+// the newest entry applied here; everything the server has seen is at most that old.
+//@ pred seenUpTo(i *IRCServer, applied uint64) = i.lastProcessed.Id <= applied && (forall x robust.Id :: x in i.sessions ==> x.Id <= applied)
+//@ func lemma_notyetseen
+//@   opt params = i *IRCServer, id robust.Id, applied uint64
+//@   requires seenUpTo(i, applied) && id.Id > applied
+//@   ensures notfound: !(id in i.sessions)
+//@   ensures answer-is-notyet: !(i.lastProcessed.Id > id.Id)
+//@ func lemma_gone
+//@   opt params = i *IRCServer, id robust.Id, applied uint64
+//@   requires seenUpTo(i, applied) && !(id in i.sessions) && i.lastProcessed.Id > id.Id
+//@   ensures older: id.Id < applied
